@@ -563,6 +563,9 @@ class Schema(ResolverMap):
             query_type=self.query_type,
             mutation_type=self.mutation_type,
             subscription_type=self.subscription_type,
+            # Types which cannot be inferred by traversing the root types
+            # (e.g. interface implementations) must be carried explicitly.
+            types=list(self.types.values()),
             nodes=self.nodes,
         )
 
